@@ -32,8 +32,10 @@ class LinearScaleMode(ScaleMode):
         Returns:
             A scale mode that scales data linearly.
         """
-        self._gain = arg_to_float("gain", gain)
-        self._offset = arg_to_float("offset", offset)
+        # Store plain Python floats. A float subclass such as numpy.float64 would otherwise promote
+        # the scaled data to float64/complex128 regardless of the requested dtype.
+        self._gain = float(arg_to_float("gain", gain))
+        self._offset = float(arg_to_float("offset", offset))
 
     @property
     def gain(self) -> float:
